@@ -41,7 +41,7 @@ inductive HState where
   | up              -- session up, no callback running
   | inHandler
   | inClose
-deriving Repr, DecidableEq, Inhabited
+deriving Repr, DecidableEq, Inhabited, Hashable
 
 def hstep : HState → CbEv → Option HState
   | .idle, .estEnter => some .inEst
